@@ -139,7 +139,7 @@ int main (int argc, char **argv)
 	{	int a [2], b [2] ; pid_t p ; if (pipe (a) || pipe (b)) return 2 ; fflush (vh_out) ; p = fork () ; if (p == 0) { close (a [1]) ; close (b [0]) ; zygote_loop (a [0], b [1]) ; } close (a [0]) ; close (b [1]) ; zy_to = a [1] ; zy_from = b [0] ; }
 	vh_enum_formats () ;
 	/* groups of 2..8 scripts */
-	for (g = 0 ; g < (vh_thorough ? 6000 : 1500) ; g++)
+	for (g = 0 ; g < (vh_thorough ? 30000 : 1500) ; g++)
 	{	static INST in [8] ; int k, live, mode ; uint64_t order_hash = 0 ;
 		if (!vh_case ("group %d", g)) continue ;
 		k = 2 + vh_rint (7) ; mode = vh_rint (2) ;
@@ -163,7 +163,7 @@ int main (int argc, char **argv)
 		for (i = 0 ; i < k ; i++) compare (&in [i], mode ? "random merge" : "round-robin", k) ;
 		}
 	/* all merges of two 6-step scripts: C(12,6) = 924 interleavings per pair */
-	for (g = 0 ; g < (vh_thorough ? 60 : 16) ; g++)
+	for (g = 0 ; g < (vh_thorough ? 320 : 16) ; g++)
 	{	long merges = 0 ; unsigned mask ; SPEC a, b ;
 		if (!vh_case ("all merges of pair %d", g)) continue ;
 		{	int fa = vh_rint (vh_nfmts), fb = vh_rint (vh_nfmts), ka = vh_rint (4), kb = vh_rint (4) ; if (vh_fmts [fa].major == SF_FORMAT_SD2) fa = 0 ; if (vh_fmts [fb].major == SF_FORMAT_SD2) fb = 0 ;
